@@ -983,12 +983,18 @@ class Exec:
     def call_closure(self, cl, args):
         """cl: value whose type names a closure; args: list of argument values (already a tuple for Fn* shims)"""
         f = None
+        if isinstance(cl, Opaque) and 'closure@' not in cl.what and re.search(r'\{(.*)\}$', cl.what):
+            # a function item used where a closure is expected (`.map(Chunk::as_slice)`)
+            return self.call(re.search(r'\{(.*)\}$', cl.what).group(1), list(args))
         if isinstance(cl, Opaque):
             f = self.closure_fn(cl.what)
         elif isinstance(cl, Agg) and 'closure@' in str(cl.ty):
             f = self.closure_fn(cl.ty)
         if f is None:
             raise Unsupported('closure call: ' + repr(cl))
+        # FnOnce closures take their environment by value, Fn / FnMut closures by reference
+        if f.params and not f.params[0][1].lstrip().startswith('&'):
+            return self.run(f, [cl] + list(args))
         holder = {'c': cl}
         return self.run(f, [Ref(holder, 'c')] + list(args))
 
